@@ -172,7 +172,6 @@ func Discharge(obls []*Obligation, cfg SolverCfg) {
 				o.Status = "discharged"
 			case "sat":
 				o.Status = "failed"
-				o.Model = getModel(file, best.name, cfg)
 			default:
 				o.Status = "unknown"
 				var sb strings.Builder
